@@ -249,6 +249,10 @@ pub fn decode_bytes_from_inscription_data(mut inscription_data: &str) -> Option<
         inscription_data = base64;
     }
     let base64_decoded = BASE64_STANDARD_NO_PAD.decode(inscription_data).ok()?;
+    if base64_decoded.is_empty() {
+        // No compression method byte
+        return None;
+    }
     // Use first byte to determine compression method
     // 0x00 = uncompressed
     // 0x01 = nada
